@@ -94,3 +94,30 @@ def run(ctx, num):
   ctx.trace_failures(fails, by, lambda rec, f: {'kind': 'util-ops', 'ops': [{k: v for k, v in o.items() if k in ('op', 'name', 'result', 'sev', 'field', 'fs', 'value')}
                                                                             for o in rec if o['ev'] == 'op'][:12], 'tid': f.get('tid')})
   ctx.distinct.update(by)
+
+
+def registry_records():
+  """paranoid.Get*Checks: the process-wide registry against the documented check table of TestInfo.tla."""
+  shim.install()
+  from paranoid_crypto.lib import paranoid
+  recs = []
+  for kind, get_all, get_single, get_agg in (('rsa', 'GetRSAAllChecks', 'GetRSASingleChecks', 'GetRSAAggregateChecks'),
+                                             ('ec', 'GetECAllChecks', 'GetECSingleChecks', 'GetECAggregateChecks'),
+                                             ('ecdsa', 'GetECDSAAllChecks', None, None)):
+    rec = {'sid': 'registry-' + kind, 'ev': 'registry', 'kind': kind, 'obs': {}, 'raised': 'none'}
+    try:
+      d1 = getattr(paranoid, get_all)()
+      d2 = getattr(paranoid, get_all)()
+      names = list(d1)
+      union = True
+      if get_single:
+        s1 = getattr(paranoid, get_single)()
+        a1 = getattr(paranoid, get_agg)()
+        union = names == list(s1) + list(a1) and all(d1[k] is s1.get(k, a1.get(k)) for k in names)
+      rec['obs'] = {'names': names, 'class_names': [type(d1[k]).__name__ for k in names], 'check_names': [d1[k].check_name for k in names],
+                    'sevs': [int(d1[k].severity) for k in names], 'same_objects_on_second_call': all(d1[k] is d2[k] for k in names) and list(d2) == names,
+                    'all_is_union': bool(union)}
+    except Exception as ex:  # pylint: disable=broad-except
+      rec['raised'] = type(ex).__name__
+    recs.append(rec)
+  return recs
